@@ -281,6 +281,20 @@ def s4_custody(F, R, M, roles, rule='S4', only=None):
                     det = 'slot indexed by the peeked token=%s, pop_used with that token=%s, token compared with a buffer index field=%s' % (slot_ok, pop_ok, cmp_)
             R.check(good, rule, '%s:take-by-token' % b['id'], where, 'buffer taken from the slot of the completed token and checked against its recorded index `%s`' % idx_field,
                     'receive does not take the buffer of the completed token: %s' % (det if not good and okp else 'no Ok path'))
+            # the slot is the driver's only record that the id is in flight: it is vacated before the completion is consumed, on
+            # every path that consumes one - also those that fail afterwards (short length) - so a repeated id finds it empty
+            late = None
+            for p in paths:
+                pk = [k for k, e in enumerate(p.effects) if e[0] == 'call' and roles.get(e[2]) == 'pop_used']
+                if not pk:
+                    continue
+                tk = [k for k, e in enumerate(p.effects) if e[0] == 'call' and (e[2].endswith('::take') or e[2] == 'core::mem::take')
+                      and any(pp[0] == 'idx' for x in subterms(e[3][0]) if x[0] == 'loc' for pp in x[2])]
+                if not tk or min(tk) > pk[0]:
+                    late = 'a path returning %s consumes the completion %s' % (err_variant(p.ret), 'before the slot is vacated' if tk else 'and never vacates the slot')
+            R.check(late is None, rule, '%s:slot-vacated-before-pop' % b['id'], where, 'the in-flight slot is taken before pop_used on every consuming path',
+                    'receive: %s; if the pop succeeds but receive then fails, the slot still claims the id is in flight and a repeated '
+                    'used id releases the descriptor a second time' % late)
     for b in F.bodies.values():
         if b.get('impl_adt') != NET or b['kind'] != 'AssocFn' or not b.get('pub'):
             continue
